@@ -320,6 +320,12 @@ func (p *Program) c17StaleOnlyFails(f *ssa.Function, st c17Stale, obj ssa.Value)
 				if rc.Ret != ret {
 					continue
 				}
+				// a return whose own guard facts are contradictory never executes: the fall-through
+				// behind `if true { return … }` that the normaliser's tail duplication leaves for the
+				// helper return that always takes the branch
+				if pfDeadByFacts(rc.Facts) {
+					continue
+				}
 				if v, isConst := c17ConstBoolResult(rc.Results[0]); !isConst || v {
 					return noTri, fmt.Sprintf("with a declared observedGeneration different from metadata.generation the return at %s (result %s) is still reachable", p.IPos(ret), p.describe(rc.Results[0]))
 				}
@@ -745,6 +751,20 @@ func c17MsLen(ms *ssa.MakeSlice) ssa.Value {
 	return ms.Len
 }
 
+// c17Uniq drops repeated messages (the copies the normaliser's tail duplication makes of one source
+// statement are reported once).
+func c17Uniq(pr []string) []string {
+	seen := map[string]bool{}
+	var out []string
+	for _, s := range pr {
+		if !seen[s] {
+			seen[s] = true
+			out = append(out, s)
+		}
+	}
+	return out
+}
+
 func c17r3(c *Ctx) {
 	p := c.P
 	// wrapper types (generation guards) and selector types, from the Probe implementations
@@ -841,6 +861,7 @@ func c17r3(c *Ctx) {
 		o := c.Ob(f, "wrapper-on-every-return", nil, "every error-free return is the observedGeneration wrapper around the parsed list")
 		var pr []string
 		var lists []ssa.Value
+		var listRets []*ssa.Return
 		nOK := 0
 		for _, rc := range p.c17ReturnCases(f) {
 			if !c17ErrResultIsNil(rc) {
@@ -858,6 +879,7 @@ func c17r3(c *Ctx) {
 				continue
 			}
 			lists = append(lists, stripConv(fields["Prober"]))
+			listRets = append(listRets, rc.Ret)
 		}
 		if nOK == 0 {
 			pr = append(pr, "no error-free return recognised")
@@ -874,30 +896,51 @@ func c17r3(c *Ctx) {
 			o2.Fail("no wrapped list to check")
 			continue
 		}
-		list := lists[0]
-		inList := map[ssa.Value]bool{}
-		var appends []*ssa.Call
+		// Every error-free return hands out its own wrapped list (one in the repository's shape; the
+		// normaliser's tail duplication of a merged multi-return helper copies the rest of the function,
+		// loop and return included, once per helper return). A construction is judged against the lists
+		// of the returns it can reach.
+		type wrappedList struct {
+			ret     *ssa.Return
+			list    ssa.Value
+			inList  map[ssa.Value]bool
+			appends []*ssa.Call
+		}
+		var wls []wrappedList
 		okFlow := true
-		for _, v := range p.possibleValues(list) {
-			call, _ := asCall(v)
-			switch {
-			case c17IsNilResult(v):
-			case call != nil && isCallTo(call.Common(), "builtin:append") && len(call.Call.Args) == 2 && p.sameValue(call.Call.Args[0], list):
-				appends = append(appends, call)
-				elems, ok := sliceElems(call.Call.Args[1])
-				if !ok {
-					okFlow = false
-					pr = append(pr, "appended elements at "+p.IPos(call)+" not recognised")
+		for li, list := range lists {
+			dup := false
+			for _, w := range wls {
+				if w.ret == listRets[li] && w.list == list {
+					dup = true
 				}
-				for _, e := range elems {
-					for _, pv := range p.possibleValues(e) {
-						inList[pv] = true
-					}
-				}
-			default:
-				okFlow = false
-				pr = append(pr, "the list may be "+p.describe(v)+", which is not an append to itself")
 			}
+			if dup {
+				continue
+			}
+			wl := wrappedList{ret: listRets[li], list: list, inList: map[ssa.Value]bool{}}
+			for _, v := range p.possibleValues(list) {
+				call, _ := asCall(v)
+				switch {
+				case c17IsNilResult(v):
+				case call != nil && isCallTo(call.Common(), "builtin:append") && len(call.Call.Args) == 2 && p.sameValue(call.Call.Args[0], list):
+					wl.appends = append(wl.appends, call)
+					elems, ok := sliceElems(call.Call.Args[1])
+					if !ok {
+						okFlow = false
+						pr = append(pr, "appended elements at "+p.IPos(call)+" not recognised")
+					}
+					for _, e := range elems {
+						for _, pv := range p.possibleValues(e) {
+							wl.inList[pv] = true
+						}
+					}
+				default:
+					okFlow = false
+					pr = append(pr, "the list may be "+p.describe(v)+", which is not an append to itself")
+				}
+			}
+			wls = append(wls, wl)
 		}
 		// probe constructions: in f itself, or in an extracted helper that hands the probe back as a result
 		isProbeMI := func(v ssa.Value) (string, bool) {
@@ -961,12 +1004,29 @@ func c17r3(c *Ctx) {
 		for _, k := range cons {
 			nProbes++
 			tn := k.tn
-			listed := inList[k.mi]
-			if k.via != nil {
-				for v := range inList {
-					if src, i := asCall(v); src == k.via && i == k.idx {
-						listed = true
+			// the lists this construction has to end up in: those of the error-free returns that can
+			// follow it; a construction none of them follows is judged against all lists
+			var mine []wrappedList
+			for _, w := range wls {
+				if blockReachableFrom(k.site.Block(), w.ret.Block()) {
+					mine = append(mine, w)
+				}
+			}
+			if len(mine) == 0 {
+				mine = wls
+			}
+			listed := true
+			for _, w := range mine {
+				in := w.inList[k.mi]
+				if k.via != nil {
+					for v := range w.inList {
+						if src, i := asCall(v); src == k.via && i == k.idx {
+							in = true
+						}
 					}
+				}
+				if !in {
+					listed = false
 				}
 			}
 			if !listed {
@@ -994,18 +1054,21 @@ func c17r3(c *Ctx) {
 				}
 				return false
 			}
-			reaches := false
-			for _, ap := range appends {
-				l := innermostLoop(f, ap.Block())
-				if l == nil {
-					continue
+			for _, w := range mine {
+				reaches := false
+				for _, ap := range w.appends {
+					l := innermostLoop(f, ap.Block())
+					if l == nil {
+						continue
+					}
+					if k.site.Block() == ap.Block() || !c17FeasibleReach(k.site.Block(), l.Head, ap.Block(), infeasible) {
+						reaches = true
+					}
 				}
-				if k.site.Block() == ap.Block() || !c17FeasibleReach(k.site.Block(), l.Head, ap.Block(), infeasible) {
-					reaches = true
+				if !reaches {
+					pr = append(pr, fmt.Sprintf("the %s built at %s can reach the next iteration without being appended to the list", tn[len(pkgProbing)+1:], p.IPos(k.mi)))
+					break
 				}
-			}
-			if !reaches {
-				pr = append(pr, fmt.Sprintf("the %s built at %s can reach the next iteration without being appended to the list", tn[len(pkgProbing)+1:], p.IPos(k.mi)))
 			}
 		}
 		if nProbes == 0 {
@@ -1014,7 +1077,7 @@ func c17r3(c *Ctx) {
 		if len(pr) == 0 && okFlow {
 			o2.OK(fmt.Sprintf("%d probe constructions flow into the list", nProbes))
 		} else {
-			o2.Fail("%s", strings.Join(pr, "; "))
+			o2.Fail("%s", strings.Join(c17Uniq(pr), "; "))
 		}
 	}
 
@@ -1028,200 +1091,253 @@ func c17r3(c *Ctx) {
 		nParse++
 		c.Visit(f)
 		o := c.Ob(f, "entries-wrapped-and-indexed", nil, "entry i becomes ParseSelector(entry.Selector, ParseProbes(entry.Probes)) at index i of a list of len(entries); only exhaustion returns the list")
-		var ppCall, psCall *ssa.Call
+		// One instance per call of the selector parser (one in the repository's shape; the normaliser's
+		// tail duplication of a merged multi-return helper copies the loop and the return once per
+		// helper return): its probe-list parser call is the last one that can run before it, and it
+		// answers for the error-free returns that can follow its store.
+		var ppCalls, psCalls []*ssa.Call
 		for _, cl := range callsIn(f) {
 			call, ok := cl.Instr.(*ssa.Call)
 			if !ok {
 				continue
 			}
 			if isIn(staticCallee(cl.Common), parseProbes) {
-				ppCall = call
+				ppCalls = append(ppCalls, call)
 			}
 			if isIn(staticCallee(cl.Common), parseSelector) {
-				psCall = call
+				psCalls = append(psCalls, call)
 			}
 		}
-		if ppCall == nil || psCall == nil {
+		if len(ppCalls) == 0 || len(psCalls) == 0 {
 			o.Fail("does not call both the probe-list parser and the selector parser")
 			continue
 		}
-		var pr []string
-		// the store
-		var store *ssa.Store
-		var list *ssa.MakeSlice
-		var sidx ssa.Value
-		ps0 := c16Extract(psCall, 0)
-		// the stored value is judged by what it can be where it is stored: a value that merged with
-		// the results of the failing returns (parsers called in an extracted helper) is narrowed by
-		// the error tests that guard the store
-		for _, b := range f.Blocks {
-			for _, in := range b.Instrs {
-				st, ok := in.(*ssa.Store)
-				if !ok || ps0 == nil {
-					continue
-				}
-				ia, ok := st.Addr.(*ssa.IndexAddr)
-				if !ok {
-					continue
-				}
-				ms, ok := ia.X.(*ssa.MakeSlice)
-				if !ok {
-					continue
-				}
-				vals := p.c17PhiUnderFacts(st.Val, p.FactsAt(b), 0)
-				hit := false
-				for _, v := range vals {
-					if p.sameValue(v, ps0) {
-						hit = true
-					}
-				}
-				if !hit {
-					continue
-				}
-				store, list, sidx = st, ms, ia.Index
-				for _, v := range vals {
-					if !p.sameValue(v, ps0) {
-						pr = append(pr, fmt.Sprintf("the value stored at %s may also be %s, not the result of the selector parser", p.IPos(st), p.describe(v)))
-					}
-				}
-			}
+		type c17ParseInst struct {
+			pr      []string
+			site    ssa.Instruction
+			listVal ssa.Value
 		}
-		// the same list built by appending: it starts empty, every iteration appends exactly the one
-		// prober of its entry, so entry i sits at index i and the list has len(entries) elements once
-		// the loop over all entries has run to its end
-		var site ssa.Instruction
-		var listVal ssa.Value
-		if store != nil {
-			site, listVal = store, list
-			if lc, _ := asCall(list.Len); lc == nil || !isCallTo(lc.Common(), "builtin:len") || lc.Call.Args[0] != ssa.Value(pp) {
-				pr = append(pr, "the list has length "+p.describe(list.Len)+", not len(entries)")
-			}
-		} else if ps0 != nil {
-			for _, cl := range callsIn(f) {
-				ap, ok := cl.Instr.(*ssa.Call)
-				if !ok || !isCallTo(cl.Common, "builtin:append") || len(ap.Call.Args) != 2 {
-					continue
-				}
-				elems, ok := sliceElems(ap.Call.Args[1])
-				if !ok || len(elems) != 1 {
-					continue
-				}
-				vals := p.c17PhiUnderFacts(elems[0], p.FactsAt(ap.Block()), 0)
-				hit := false
-				for _, v := range vals {
-					if p.sameValue(v, ps0) {
-						hit = true
-					}
-				}
-				if !hit {
-					continue
-				}
-				al := innermostLoop(f, ap.Block())
-				ph, isPhi := ap.Call.Args[0].(*ssa.Phi)
-				if al == nil || !isPhi || ph.Block() != al.Head {
-					pr = append(pr, "the selector parser's result is appended at "+p.IPos(ap)+" to "+c17Short(p.describe(ap.Call.Args[0]))+", which is not the list carried around the loop over the entries")
-					site, listVal = ap, ap
-					continue
-				}
-				for _, v := range vals {
-					if !p.sameValue(v, ps0) {
-						pr = append(pr, fmt.Sprintf("the value appended at %s may also be %s, not the result of the selector parser", p.IPos(ap), p.describe(v)))
-					}
-				}
-				for i, e := range ph.Edges {
-					switch {
-					case al.Body[ph.Block().Preds[i]]:
-						if stripConv(e) != ssa.Value(ap) {
-							pr = append(pr, "the list carried into the next iteration may be "+c17Short(p.describe(e))+", not the list extended by this entry's prober")
-						}
-					case c17IsNilResult(e):
-					default:
-						ms, isMS := stripConv(e).(*ssa.MakeSlice)
-						if n, isConst := constInt(c17MsLen(ms)); !isMS || !isConst || n != 0 {
-							pr = append(pr, "the list the probers are appended to starts as "+c17Short(p.describe(e))+", which is not an empty list")
-						}
-					}
-				}
-				site, listVal = ap, ph
-				if iff, isIf := al.Head.Instrs[len(al.Head.Instrs)-1].(*ssa.If); isIf {
-					if cond, isBin := iff.Cond.(*ssa.BinOp); isBin {
-						sidx = cond.X
-					}
-				}
-			}
-		}
-		if site == nil {
-			o.Fail("the result of the selector parser is not stored into a freshly made list")
-			continue
-		}
-		l := innermostLoop(f, site.Block())
-		if l == nil {
-			pr = append(pr, "entries are not processed in a loop")
-		} else if sidx == nil {
-			pr = append(pr, "loop header does not end in a bounds test")
-		} else {
-			if ok, why := p.c17LoopOverSlice(l, pp, sidx); !ok {
-				pr = append(pr, why)
-			}
-			if !p.mustPrecedeInLoop(l, site) {
-				pr = append(pr, "an iteration can continue without storing its prober")
-			}
-			rcs := p.c17ReturnCases(f)
-			for b := range l.Body {
-				for _, s := range b.Succs {
-					if l.Body[s] || b == l.Head {
+		judge := func(ppCall, psCall *ssa.Call) (res c17ParseInst) {
+			var pr []string
+			// the store
+			var store *ssa.Store
+			var list *ssa.MakeSlice
+			var sidx ssa.Value
+			ps0 := c16Extract(psCall, 0)
+			// the stored value is judged by what it can be where it is stored: a value that merged with
+			// the results of the failing returns (parsers called in an extracted helper) is narrowed by
+			// the error tests that guard the store
+			for _, b := range f.Blocks {
+				for _, in := range b.Instrs {
+					st, ok := in.(*ssa.Store)
+					if !ok || ps0 == nil {
 						continue
 					}
-					for _, in := range reachableFromEdge(s, nil) {
-						ret, ok := in.(*ssa.Return)
-						if !ok {
+					ia, ok := st.Addr.(*ssa.IndexAddr)
+					if !ok {
+						continue
+					}
+					ms, ok := ia.X.(*ssa.MakeSlice)
+					if !ok {
+						continue
+					}
+					vals := p.c17PhiUnderFacts(st.Val, p.FactsAt(b), 0)
+					hit := false
+					for _, v := range vals {
+						if p.sameValue(v, ps0) {
+							hit = true
+						}
+					}
+					if !hit {
+						continue
+					}
+					store, list, sidx = st, ms, ia.Index
+					for _, v := range vals {
+						if !p.sameValue(v, ps0) {
+							pr = append(pr, fmt.Sprintf("the value stored at %s may also be %s, not the result of the selector parser", p.IPos(st), p.describe(v)))
+						}
+					}
+				}
+			}
+			// the same list built by appending: it starts empty, every iteration appends exactly the one
+			// prober of its entry, so entry i sits at index i and the list has len(entries) elements once
+			// the loop over all entries has run to its end
+			var site ssa.Instruction
+			var listVal ssa.Value
+			if store != nil {
+				site, listVal = store, list
+				if lc, _ := asCall(list.Len); lc == nil || !isCallTo(lc.Common(), "builtin:len") || lc.Call.Args[0] != ssa.Value(pp) {
+					pr = append(pr, "the list has length "+p.describe(list.Len)+", not len(entries)")
+				}
+			} else if ps0 != nil {
+				for _, cl := range callsIn(f) {
+					ap, ok := cl.Instr.(*ssa.Call)
+					if !ok || !isCallTo(cl.Common, "builtin:append") || len(ap.Call.Args) != 2 {
+						continue
+					}
+					elems, ok := sliceElems(ap.Call.Args[1])
+					if !ok || len(elems) != 1 {
+						continue
+					}
+					vals := p.c17PhiUnderFacts(elems[0], p.FactsAt(ap.Block()), 0)
+					hit := false
+					for _, v := range vals {
+						if p.sameValue(v, ps0) {
+							hit = true
+						}
+					}
+					if !hit {
+						continue
+					}
+					al := innermostLoop(f, ap.Block())
+					ph, isPhi := ap.Call.Args[0].(*ssa.Phi)
+					if al == nil || !isPhi || ph.Block() != al.Head {
+						pr = append(pr, "the selector parser's result is appended at "+p.IPos(ap)+" to "+c17Short(p.describe(ap.Call.Args[0]))+", which is not the list carried around the loop over the entries")
+						site, listVal = ap, ap
+						continue
+					}
+					for _, v := range vals {
+						if !p.sameValue(v, ps0) {
+							pr = append(pr, fmt.Sprintf("the value appended at %s may also be %s, not the result of the selector parser", p.IPos(ap), p.describe(v)))
+						}
+					}
+					for i, e := range ph.Edges {
+						switch {
+						case al.Body[ph.Block().Preds[i]]:
+							if stripConv(e) != ssa.Value(ap) {
+								pr = append(pr, "the list carried into the next iteration may be "+c17Short(p.describe(e))+", not the list extended by this entry's prober")
+							}
+						case c17IsNilResult(e):
+						default:
+							ms, isMS := stripConv(e).(*ssa.MakeSlice)
+							if n, isConst := constInt(c17MsLen(ms)); !isMS || !isConst || n != 0 {
+								pr = append(pr, "the list the probers are appended to starts as "+c17Short(p.describe(e))+", which is not an empty list")
+							}
+						}
+					}
+					site, listVal = ap, ph
+					if iff, isIf := al.Head.Instrs[len(al.Head.Instrs)-1].(*ssa.If); isIf {
+						if cond, isBin := iff.Cond.(*ssa.BinOp); isBin {
+							sidx = cond.X
+						}
+					}
+				}
+			}
+			if site == nil {
+				return res
+			}
+			res.site, res.listVal = site, listVal
+			l := innermostLoop(f, site.Block())
+			if l == nil {
+				pr = append(pr, "entries are not processed in a loop")
+			} else if sidx == nil {
+				pr = append(pr, "loop header does not end in a bounds test")
+			} else {
+				if ok, why := p.c17LoopOverSlice(l, pp, sidx); !ok {
+					pr = append(pr, why)
+				}
+				if !p.mustPrecedeInLoop(l, site) {
+					pr = append(pr, "an iteration can continue without storing its prober")
+				}
+				rcs := p.c17ReturnCases(f)
+				for b := range l.Body {
+					for _, s := range b.Succs {
+						if l.Body[s] || b == l.Head {
 							continue
 						}
-						for _, rc := range rcs {
-							if rc.Ret == ret && !p.c17NonNilErr(rc, rc.Results[len(rc.Results)-1]) {
-								pr = append(pr, fmt.Sprintf("the loop can be left early at %s and return without an error", p.IPos(ret)))
+						for _, in := range reachableFromEdge(s, nil) {
+							ret, ok := in.(*ssa.Return)
+							if !ok {
+								continue
+							}
+							for _, rc := range rcs {
+								if rc.Ret == ret && !p.c17NonNilErr(rc, rc.Results[len(rc.Results)-1]) {
+									pr = append(pr, fmt.Sprintf("the loop can be left early at %s and return without an error", p.IPos(ret)))
+								}
 							}
 						}
 					}
 				}
-			}
-			for _, rc := range rcs {
-				if !c17ErrResultIsNil(rc) {
-					continue
-				}
-				if stripConv(rc.Results[0]) != listVal {
-					pr = append(pr, fmt.Sprintf("error-free return at %s yields %s, not the list of all entries", p.IPos(rc.Ret), p.describe(rc.Results[0])))
-				}
-			}
-		}
-		// arguments
-		if len(ppCall.Call.Args) < 2 {
-			pr = append(pr, "probe-list parser call has no list argument")
-		} else if idx, path, ok := c17ElemOf(ppCall.Call.Args[len(ppCall.Call.Args)-1], pp); !ok || stripConv(idx) != stripConv(sidx) || strings.Join(path, ".") != "Probes" {
-			pr = append(pr, "the parsed probes are "+p.describe(ppCall.Call.Args[len(ppCall.Call.Args)-1])+", not entries[i].Probes of the entry stored at i")
-		}
-		selPrm := c17ParamOfNamedType(staticCallee(psCall.Common()), pkgCoreV1+".ProbeSelector")
-		prbPrm := c17ParamOfNamedType(staticCallee(psCall.Common()), c17TypeProber)
-		for i, fp := range staticCallee(psCall.Common()).Params {
-			if i >= len(psCall.Call.Args) {
-				break
-			}
-			arg := psCall.Call.Args[i]
-			if fp == selPrm {
-				if idx, path, ok := c17ElemOf(arg, pp); !ok || stripConv(idx) != stripConv(sidx) || strings.Join(path, ".") != "Selector" {
-					pr = append(pr, "the selector handed to the selector parser is "+p.describe(arg)+", not entries[i].Selector")
+				for _, rc := range rcs {
+					if !c17ErrResultIsNil(rc) || !blockReachableFrom(site.Block(), rc.Ret.Block()) {
+						continue
+					}
+					if stripConv(rc.Results[0]) != listVal {
+						pr = append(pr, fmt.Sprintf("error-free return at %s yields %s, not the list of all entries", p.IPos(rc.Ret), p.describe(rc.Results[0])))
+					}
 				}
 			}
-			if fp == prbPrm {
-				if pp0 := c16Extract(ppCall, 0); pp0 == nil || !p.sameValue(arg, pp0) {
-					pr = append(pr, "the prober handed to the selector parser is "+p.describe(arg)+", not the parsed probe list of this entry")
+			// arguments
+			if len(ppCall.Call.Args) < 2 {
+				pr = append(pr, "probe-list parser call has no list argument")
+			} else if idx, path, ok := c17ElemOf(ppCall.Call.Args[len(ppCall.Call.Args)-1], pp); !ok || stripConv(idx) != stripConv(sidx) || strings.Join(path, ".") != "Probes" {
+				pr = append(pr, "the parsed probes are "+p.describe(ppCall.Call.Args[len(ppCall.Call.Args)-1])+", not entries[i].Probes of the entry stored at i")
+			}
+			selPrm := c17ParamOfNamedType(staticCallee(psCall.Common()), pkgCoreV1+".ProbeSelector")
+			prbPrm := c17ParamOfNamedType(staticCallee(psCall.Common()), c17TypeProber)
+			for i, fp := range staticCallee(psCall.Common()).Params {
+				if i >= len(psCall.Call.Args) {
+					break
+				}
+				arg := psCall.Call.Args[i]
+				if fp == selPrm {
+					if idx, path, ok := c17ElemOf(arg, pp); !ok || stripConv(idx) != stripConv(sidx) || strings.Join(path, ".") != "Selector" {
+						pr = append(pr, "the selector handed to the selector parser is "+p.describe(arg)+", not entries[i].Selector")
+					}
+				}
+				if fp == prbPrm {
+					if pp0 := c16Extract(ppCall, 0); pp0 == nil || !p.sameValue(arg, pp0) {
+						pr = append(pr, "the prober handed to the selector parser is "+p.describe(arg)+", not the parsed probe list of this entry")
+					}
 				}
 			}
+			fs := p.FactsAt(site.Block())
+			if !p.errOfCallIsNil(fs, ppCall) || !p.errOfCallIsNil(fs, psCall) {
+				pr = append(pr, "the store is not dominated by the error-free edges of both parsers")
+			}
+			res.pr = pr
+			return res
 		}
-		fs := p.FactsAt(site.Block())
-		if !p.errOfCallIsNil(fs, ppCall) || !p.errOfCallIsNil(fs, psCall) {
-			pr = append(pr, "the store is not dominated by the error-free edges of both parsers")
+		var pr []string
+		var insts []c17ParseInst
+		for _, psCall := range psCalls {
+			var ppCall *ssa.Call
+			for _, cand := range ppCalls {
+				for _, x := range reachableAfter(cand, nil) {
+					if x == ssa.Instruction(psCall) {
+						ppCall = cand
+						break
+					}
+				}
+			}
+			if ppCall == nil {
+				ppCall = ppCalls[len(ppCalls)-1]
+			}
+			if r := judge(ppCall, psCall); r.site != nil {
+				insts = append(insts, r)
+				pr = append(pr, r.pr...)
+			}
 		}
+		if len(insts) == 0 {
+			o.Fail("the result of the selector parser is not stored into a freshly made list")
+			continue
+		}
+		// an error-free return that follows no store still has to hand out one of the lists
+		for _, rc := range p.c17ReturnCases(f) {
+			if !c17ErrResultIsNil(rc) {
+				continue
+			}
+			covered := false
+			for _, r := range insts {
+				if blockReachableFrom(r.site.Block(), rc.Ret.Block()) || stripConv(rc.Results[0]) == r.listVal {
+					covered = true
+				}
+			}
+			if !covered {
+				pr = append(pr, fmt.Sprintf("error-free return at %s yields %s, not the list of all entries", p.IPos(rc.Ret), p.describe(rc.Results[0])))
+			}
+		}
+		pr = c17Uniq(pr)
 		if len(pr) == 0 {
 			o.OK()
 		} else {
